@@ -30,14 +30,14 @@ CLAIMED = {
  'C14': lex('Constructor equivalence: the four real constructors (generated wrappers + lexgen_util) are executed on the same symbolic character sequence and equal user state; every field except `input` is decided equal (structurally / by z3) and equal to the initial boundary state B(Init, Loc::ZERO) from which the shared `next()` MIR (generic over the iterator type) is covered by the one-step results.'),
  'C15': lex('Clone: at every boundary state reached by one call from every start boundary state (all paths; after tokens, errors, switches, None/done) the real derived Clone code of the generated struct and of lexgen_util::Lexer is executed and the clone is decided structurally equal to the original and the original unchanged; with value semantics and no shared state equal states give equal, independent streams.'),
  'C11': dict(
-   text='Bounded symbolic execution of the real MIR of RangeMap::insert / insert_ranges / remove_ranges / Range::contains from an ARBITRARY valid map (inductive step), every path decided by z3 for all end points, values and code points; maps of at most K ranges (K=3 quick, 4 thorough). Class expressions end to end are covered by the C02 lexers with `#` chains.',
+   text='Bounded symbolic execution of the real MIR of RangeMap::insert / insert_ranges / remove_ranges / Range::contains from an ARBITRARY valid map (inductive step), every path decided by z3 for all end points, values and code points; maps of at most K ranges (K=3 quick, 4 thorough); plus class expressions end to end (regex_to_range_map, code generation) through one-character lexers for curated and random expressions over overlapping / nested sets, `_`, built-ins, `|` and chained `#`.',
    note='Trusted: rustc MIR dump, the MIR executor (validated on every run against the natively compiled functions on concrete cases), z3, summaries of the std items called (Vec push/extend/iterators, cmp::min/max, Ord::cmp, RangeInclusive accessors, checked +/-). Outside the claim: maps with more than K ranges.',
    technique='MIR symbolic execution + z3 (integer encoding with explicit wrap-around), inductive step from arbitrary valid state, native replay',
    ref='DESIGN.md section 3 C11, section 1.2'),
  'C13': dict(
-   text='Kani/CBMC harness per built-in: member(TABLE, c) == rust_predicate(c) for an arbitrary char c over the real char_ranges.rs tables and the real core/unicode_xid predicates (18 of 20 names; alphabetic and alphanumeric exceed the unwinding reach of CBMC in core::unicode skip_search and are only scanned natively).',
-   note='Trusted: Kani 0.68/CBMC 6.11, the harness binary search (tables checked sorted natively), equality of the Unicode version of the core library Kani uses and the repository toolchain (asserted). Outside the solver claim: alphabetic, alphanumeric table contents (native exhaustive scan only); name->table mapping and generated lookup shapes are exercised by C02/C01 lexers with small built-ins only.',
-   technique='Kani/CBMC bounded model checking of table lookup vs real predicate with symbolic char; native exhaustive scan as replay',
+   text='Kani/CBMC harness per built-in: member(TABLE, c) == rust_predicate(c) for an arbitrary char c over the real char_ranges.rs tables and the real core/unicode_xid predicates (18 of 20 names; alphabetic and alphanumeric exceed the unwinding reach of CBMC in core::unicode skip_search and are only scanned natively); plus name->table mapping and both generated lookup shapes (guard chain, binary-search table with the real generated binary_search) through engine M on lexers `$$name+`, `$$name`, combinations with `#`, `|`, right contexts (all characters; quick: 15 names, thorough: all 20).',
+   note='Trusted: Kani 0.68/CBMC 6.11, the harness binary search (tables checked sorted natively), equality of the Unicode version of the core library Kani uses and the repository toolchain (asserted). Outside the solver claim: alphabetic, alphanumeric table contents (native exhaustive scan only); slice::binary_search_by is summarised by the probe sequence of the toolchain std implementation.',
+   technique='Kani/CBMC bounded model checking of table lookup vs real predicate with symbolic char + MIR symbolic execution (z3) of one-rule lexers per built-in; native replay',
    ref='DESIGN.md section 3 C13', engine='kani'),
  'C18': dict(
    text='Inductive cut-point verification of the real MIR of generate_char_fn_ranges: predicate = uninterpreted function, loop counter arbitrary, vector abstracted by ghosts; base/step/exit obligations discharged by z3 - no bound on predicate or code points. Failing obligations give a concrete predicate replayed against the native generator.',
